@@ -515,8 +515,17 @@ def rule_c16(an, res):
                             V(res, prop, 'ORD-WITNESS', cm, where_of(m, seg), 'ttl structure manipulated by %s' % getattr(e, 'name', e.kind), e.site,
                               'only keyed insertion and erase keep the multimap\'s head the earliest deadline')
                         if e.kind == 'AUX_DEL' and e.aux == aux:
-                            # every ttl erase goes with the removal or re-filing of the same slot
-                            res.ob('R-TTL-ERASE-PAIRED', ok=True)
+                            check_ttl_erase(res, prop, cm, roles, m, seg, e)
+
+
+def check_ttl_erase(res, prop, cm, roles, m, seg, e):
+    """every erase from the ttl structure removes exactly one entry: the one the subject slot's stored position denotes"""
+    ok = isinstance(e.ent, lift.Ent) and e.ent.kind in ('FOUND', 'BACK', 'AUXHEAD', 'ATPART', 'RANDPOS', 'LV', 'FRONT')
+    res.ob('R-TTL-ERASE-PAIRED', ok=ok)
+    if not ok:
+        V(res, prop, 'R-TTL-ERASE-PAIRED', cm, where_of(m, seg), 'ttl structure erased by something other than the slot\'s stored position', e.site,
+          'path [%s]: %s.erase(%s) - erasing by key (or through a foreign iterator) can drop the ttl entries of other slots, which then '
+          'never expire / are never seen by the expired-first test' % (' '.join(seg.valuation()), e.aux, show(e.arg) if e.arg is not None else '?'))
 
 
 # ---------------------------------------------------------------------------------------------- C17
@@ -544,6 +553,11 @@ def rule_c17(an, res):
                 for top in tops:
                     for b in ops.find_bodies(top, m):
                         check_refile(res, prop, cm, roles, m, b)
+            for top in tops:
+                for seg in top.all_segments():
+                    for e in seg.effects:
+                        if e.kind == 'AUX_DEL' and e.aux == aux:
+                            check_ttl_erase(res, prop, cm, roles, m, seg, e)
             if k != 'CLEAN':
                 continue
             for top in tops:
